@@ -212,12 +212,18 @@ def main():
         seen["row"] = df_row.copy()
         return o_create(df_row, df_attr)
 
-    for key, target, BASE in [(k, t, b) for b in (BASE_COUNTRY, BASE_COUNTRY2) for k, t in tables["overrides"].items()]:
+    cases3 = [(k, t, b, None) for b in (BASE_COUNTRY, BASE_COUNTRY2) for k, t in tables["overrides"].items()]
+    # the smallest legal value of an override is a value like any other (zero is falsy in Python, not absent)
+    cases3 += [(k, tables["overrides"][k], BASE_COUNTRY, 0) for k in ("MINIMUM_PERCENT_FED_BEFORE_NONHUMAN_CONSUMPTION_ALLOWED", "RATIO_STOCKS_UNTOUCHED")
+               if k in tables["overrides"]]
+    for key, target, BASE, forced in cases3:
         with contextlib.redirect_stdout(io.StringIO()):
             c_base, _, _ = sr.set_depending_on_option(copy.deepcopy(BASE), country_data=rows["ARG"])
         rep["override_cases"] += 1
         val = {"kg_meat_per_large_animal": 300.5, "MINIMUM_PERCENT_FED_BEFORE_NONHUMAN_CONSUMPTION_ALLOWED": 37, "RATIO_STOCKS_UNTOUCHED": 0.25,
                "CROP_PRODUCTION_MULTIPLIER": 0.5, "GRASSES_PRODUCTION_MULTIPLIER": 2}.get(key, 123457)
+        if forced is not None:
+            val = forced
         opts = copy.deepcopy(BASE)
         opts[key] = val
         snapshot = copy.deepcopy(opts)
@@ -233,7 +239,12 @@ def main():
         tgt = set(target)
         if key.endswith("_PRODUCTION_MULTIPLIER"):
             tgt = {k for k in tgt if k in flat(c_base)}
-        if ch != tgt:
+        if forced is not None:
+            # (the base may already hold that value, then nothing changes; what matters is the value in force)
+            fl_c = flat(c)
+            if any(fl_c.get(k) != val for k in tgt) or (ch - tgt):
+                bad("OverrideTakesEffect:%s=%r" % (key, val), dict(override=key, value=val, got={k: fl_c.get(k) for k in tgt}, changed=sorted(ch)))
+        elif ch != tgt:
             bad("OverrideIsolation:%s" % ("head" if key.endswith("_head") else key), dict(override=key, changed=sorted(ch), want=sorted(tgt)))
         if key.endswith("_head") and BASE is BASE_COUNTRY:
             # the override must reach the stock table the herd model is built from: exactly the named species changes
